@@ -1,5 +1,6 @@
 """C10 — sibling names stay unique and exact-name lookup agrees with a scan: N1-N7."""
 import ast
+import re
 
 from ..core import AnalysisError, norm, short, walk_local
 from ..typestate import classify_set
@@ -70,18 +71,22 @@ def _n1(ctx, R):
     R.floor("namespace handlers (N1)", 13)
 
 
+def _looks_like_key(v):
+    return isinstance(v, str) and (v.startswith(".") or re.match(r"^[A-Za-z]+\.[A-Za-z_.]+$", v) is not None)
+
+
 def _key_sets(fn):
-    """string constants a function compares `key` with / iterates as keys"""
+    """data-key constants a function compares a variable with / iterates (independent of variable names)"""
     out = set()
     for n in walk_local(fn.node):
-        if isinstance(n, ast.Compare) and len(n.ops) == 1 and norm(n.left) == "key":
+        if isinstance(n, ast.Compare) and len(n.ops) == 1 and isinstance(n.left, ast.Name):
             c = n.comparators[0]
-            if isinstance(c, ast.Constant) and isinstance(c.value, str):
+            if isinstance(c, ast.Constant) and _looks_like_key(c.value):
                 out.add(c.value)
             elif isinstance(c, (ast.Set, ast.List, ast.Tuple)):
-                out |= {e.value for e in c.elts if isinstance(e, ast.Constant) and isinstance(e.value, str)}
-        if isinstance(n, ast.For) and norm(n.target) == "key" and isinstance(n.iter, (ast.List, ast.Tuple, ast.Set)):
-            out |= {e.value for e in n.iter.elts if isinstance(e, ast.Constant) and isinstance(e.value, str)}
+                out |= {e.value for e in c.elts if isinstance(e, ast.Constant) and _looks_like_key(e.value)}
+        if isinstance(n, ast.For) and isinstance(n.target, ast.Name) and isinstance(n.iter, (ast.List, ast.Tuple, ast.Set)):
+            out |= {e.value for e in n.iter.elts if isinstance(e, ast.Constant) and _looks_like_key(e.value)}
     return out
 
 
@@ -96,7 +101,23 @@ def _n3(ctx, R):
         for a in walk_local(f.node):
             if isinstance(a, ast.Assign) and isinstance(a.targets[0], ast.Name):
                 v = a.value
-                if (isinstance(v, ast.Subscript) and norm(v.value) == "self.edif_namespaces") or a.targets[0].id == "edif_namespace":
+                is_id_set = False
+                if isinstance(v, ast.Call) and norm(v.func) == "set" and not v.args:
+                    # a local set is an identifier table when some key put into / tested against it is lower-cased
+                    nm_ = a.targets[0].id
+                    for c_ in walk_local(f.node):
+                        k_ = None
+                        if isinstance(c_, ast.Call) and isinstance(c_.func, ast.Attribute) and norm(c_.func.value) == nm_ and c_.func.attr == "add" and c_.args:
+                            k_ = c_.args[0]
+                        if k_ is not None:
+                            if isinstance(k_, ast.Call) and isinstance(k_.func, ast.Attribute) and k_.func.attr in ("lower", "casefold"):
+                                is_id_set = True
+                            if isinstance(k_, ast.Name):
+                                for a2 in walk_local(f.node):
+                                    if isinstance(a2, ast.Assign) and norm(a2.targets[0]) == k_.id and isinstance(a2.value, ast.Call) \
+                                            and isinstance(a2.value.func, ast.Attribute) and a2.value.func.attr in ("lower", "casefold"):
+                                        is_id_set = True
+                if (isinstance(v, ast.Subscript) and norm(v.value) == "self.edif_namespaces") or is_id_set:
                     par = getattr(a, "_parent", None)
                     for blk in ("body", "orelse", "finalbody"):
                         stmts = getattr(par, blk, None)
@@ -285,14 +306,15 @@ def _n4_n5_n6(ctx, R):
 
 
 def _branches_by_class(fn, var_names=("element", "parent")):
-    """{class name: [body statements]} for `isinstance(<var>, C)` branches (tuple of classes expands)"""
+    """{class name: (tested variable, [body statements])} for `isinstance(<var>, C)` branches (tuple of classes expands)"""
     out = {}
     for n in walk_local(fn.node):
         if isinstance(n, ast.If) and isinstance(n.test, ast.Call) and norm(n.test.func) == "isinstance" and len(n.test.args) == 2:
             c = n.test.args[1]
             names = [norm(x) for x in c.elts] if isinstance(c, ast.Tuple) else [norm(c)]
             for nm in names:
-                out.setdefault(nm.split(".")[-1], []).extend(n.body)
+                ent = out.setdefault(nm.split(".")[-1], (norm(n.test.args[0]), []))
+                ent[1].extend(n.body)
     return out
 
 
@@ -365,7 +387,7 @@ def _n7(ctx, R):
             raise AnalysisError("anchor vanished: a containment traversal of the namespace plugin")
         br = _branches_by_class(f)
         for pc, rels in SCHEMA.items():
-            used = _attrs_used(br.get(pc, []), var) & all_attrs
+            used = _attrs_used(br.get(pc, (var, []))[1], br.get(pc, (var, []))[0]) & all_attrs
             want = {a for a, _ in rels}
             for a in sorted(want):
                 cells += 1
@@ -395,7 +417,7 @@ def _n7(ctx, R):
     br = _branches_by_class(gp)
     for child, attr in PARENT_ATTR.items():
         cells += 1
-        used = _attrs_used(br.get(child, []), "element")
+        used = _attrs_used(br.get(child, ("element", []))[1], br.get(child, ("element", []))[0])
         if attr in used:
             R.ok("N7", "get_parent: %s.%s" % (child, attr), gp.loc())
         else:
